@@ -81,6 +81,23 @@ static void gen_val(vh_rng* r, struct val* v, int allow_str) {
               if (v->i < 0) { vh_count("int_numeric_spec_int_range_negative"); } break;
       case 2: { int k = (int)vh_below(r, 7); v->spec = INT_SPECS_NONNEG[k];
                 v->i = k < 4 ? (int64_t)((uint64_t)v->i >> 1) : (int64_t)((uint32_t)v->i >> 1); vh_count("int_numeric_spec_unsigned_conv"); break; }
+      case 3: {
+        /* the short and char length modifiers: the value is stored through a short or a char and comes back whole,
+           negative ones included (signed conversions) and the top half of the range included (unsigned ones) */
+        static const char* H_SIGNED[] = { "%hd", "%hi", "%hhd", "%hhi" };
+        static const char* H_UNSIGNED[] = { "%hu", "%hx", "%hX", "%ho", "%hhu", "%hhx", "%hhX", "%hho" };
+        if (vh_chance(r, 50)) {
+          int k = (int)vh_below(r, 4); v->spec = H_SIGNED[k];
+          v->i = k < 2 ? (int64_t)(int16_t)v->i : (int64_t)(int8_t)v->i;
+          if (vh_chance(r, 30)) { v->i = k < 2 ? (vh_chance(r, 50) ? INT16_MIN : INT16_MAX) : (vh_chance(r, 50) ? INT8_MIN : INT8_MAX); }
+          if (v->i < 0) { vh_count(k < 2 ? "int_numeric_spec_short_negative" : "int_numeric_spec_char_negative"); }
+        } else {
+          int k = (int)vh_below(r, 8); v->spec = H_UNSIGNED[k];
+          v->i = k < 4 ? (int64_t)(uint16_t)v->i : (int64_t)(uint8_t)v->i;
+          if (v->i >= (k < 4 ? 32768 : 128)) { vh_count("int_numeric_spec_short_or_char_unsigned_top_half"); }
+        }
+        break;
+      }
       default: break;
     }
   } else if (v->kind == V_FLOAT) {
